@@ -8,23 +8,29 @@ use ffi_shim::model as fm;
 use rayon::prelude::*;
 use serde_json::{json, Value};
 
-fn amount_from_json(a: &Value) -> Option<fm::Amount> {
+fn amount_from_json(a: &Value, div: f64) -> Option<fm::Amount> {
     let unit = a["unit"].as_str().filter(|u| !u.is_empty()).map(|u| u.to_string());
     let q = match a["t"].as_str().unwrap() {
-        "number" => fm::Value::Number { value: a["lo"].as_f64().unwrap() / 4.0 },
-        "range" => fm::Value::Range { start: a["lo"].as_f64().unwrap() / 4.0, end: a["hi"].as_f64().unwrap() / 4.0 },
+        "number" => fm::Value::Number { value: a["lo"].as_f64().unwrap() / 4.0 / div },
+        "range" => fm::Value::Range { start: a["lo"].as_f64().unwrap() / 4.0 / div, end: a["hi"].as_f64().unwrap() / 4.0 / div },
         "text" => fm::Value::Text { value: a["txt"].as_str().unwrap().to_string() },
         _ => return None,
     };
     Some(fm::Amount::verif_new(q, unit))
 }
 
-fn combine_case(r: &Value) -> Value {
+/// quarter units, or -1 when the amount is not (within 1e-9) a whole number of them
+fn quarters(v: f64, div: f64) -> i64 {
+    let q = v * 4.0 * div;
+    if (q - q.round()).abs() <= 1e-9 * q.abs().max(1.0) { q.round() as i64 } else { -1 }
+}
+
+fn combine_with(r: &Value, div: f64) -> Value {
     let list: Vec<fm::Ingredient> = r["list"]
         .as_array()
         .unwrap()
         .iter()
-        .map(|i| fm::Ingredient { name: i["name"].as_str().unwrap().to_string(), amount: amount_from_json(&i["amount"]), descriptor: None })
+        .map(|i| fm::Ingredient { name: i["name"].as_str().unwrap().to_string(), amount: amount_from_json(&i["amount"], div), descriptor: None })
         .collect();
     let sel: Vec<u32> = r["sel"].as_array().unwrap().iter().map(|k| k.as_u64().unwrap() as u32 - 1).collect();
     let view = |m: &fm::IngredientList| -> (Vec<Value>, Vec<Value>) {
@@ -40,15 +46,15 @@ fn combine_case(r: &Value) -> Value {
                 };
                 keys.push(json!({"name": name, "unit": k.name, "type": ty}));
                 match v {
-                    fm::Value::Number { value } => nums.push(json!({"name": name, "unit": k.name, "type": ty, "lo": (value * 4.0).round() as i64, "hi": (value * 4.0).round() as i64})),
-                    fm::Value::Range { start, end } => nums.push(json!({"name": name, "unit": k.name, "type": ty, "lo": (start * 4.0).round() as i64, "hi": (end * 4.0).round() as i64})),
+                    fm::Value::Number { value } => nums.push(json!({"name": name, "unit": k.name, "type": ty, "lo": quarters(*value, div), "hi": quarters(*value, div)})),
+                    fm::Value::Range { start, end } => nums.push(json!({"name": name, "unit": k.name, "type": ty, "lo": quarters(*start, div), "hi": quarters(*end, div)})),
                     _ => {}
                 }
             }
         }
         (nums, keys)
     };
-    let obs = guarded(|| {
+    guarded(|| {
         let selected = ffi_shim::combine_ingredients_selected(&list, &sel);
         let sub: Vec<fm::Ingredient> = sel.iter().map(|k| list[*k as usize].clone()).collect();
         let whole = ffi_shim::combine_ingredients(&sub);
@@ -56,7 +62,19 @@ fn combine_case(r: &Value) -> Value {
         let (nums2, keys2) = view(&whole);
         json!({"st": "ok", "selected": nums, "keys": keys, "sublist": nums2, "sublist_keys": keys2})
     })
-    .unwrap_or_else(|p| json!({"st": "panic", "sig": panic_signature(&p)}));
+    .unwrap_or_else(|p| json!({"st": "panic", "sig": panic_signature(&p)}))
+}
+
+fn combine_case(r: &Value) -> Value {
+    let mut obs = combine_with(r, 1.0);
+    // the same list with every amount divided by 3 (and by 7000): sums that no decimal rounding leaves intact
+    let thirds = combine_with(r, 3.0);
+    let small = combine_with(r, 7000.0);
+    obs["selected_thirds"] = thirds.get("selected").cloned().unwrap_or(json!([]));
+    obs["selected_small"] = small.get("selected").cloned().unwrap_or(json!([]));
+    if thirds["st"] != "ok" || small["st"] != "ok" {
+        obs["st"] = json!("panic");
+    }
     let mut o = r.clone();
     o["kind_rec"] = json!("combine");
     o["obs"] = obs;
